@@ -72,7 +72,7 @@ pub fn algos() -> Vec<(&'static str, &'static rcgen::SignatureAlgorithm)> {
 
 fn family(alg: KeyAlg) -> KeyAlg {
 	match alg {
-		KeyAlg::Rsa2048 | KeyAlg::Rsa3072 | KeyAlg::Rsa4096 => KeyAlg::Rsa2048,
+		KeyAlg::Rsa2048 | KeyAlg::Rsa3072 | KeyAlg::Rsa4096 | KeyAlg::Rsa6144 => KeyAlg::Rsa2048,
 		a => a,
 	}
 }
@@ -145,6 +145,47 @@ fn check_identity(
 	Ok(())
 }
 
+/// The saved form of a loaded key (documented as PKCS#8 DER / PEM) goes back in through all nine
+/// loading entry points, under the key's own algorithm for the explicit ones.
+fn reload_everywhere(k: &rcgen::KeyPair, ref_spki: &[u8], ref_raw: &[u8], key_alg: KeyAlg, info: &mut CaseInfo) -> Result<(), String> {
+	let saved = k.serialize_der();
+	let saved_pem = k.serialize_pem();
+	let alg = k.algorithm();
+	let alg: &'static rcgen::SignatureAlgorithm = algos().into_iter().map(|x| x.1).find(|a| *a == alg).ok_or("loaded key reports an unknown algorithm")?;
+	for entry in ENTRIES {
+		let r = no_panic(|| match entry {
+			Entry::TryFromSlice => rcgen::KeyPair::try_from(saved.as_slice()),
+			Entry::TryFromVec => rcgen::KeyPair::try_from(saved.clone()),
+			Entry::TryFromPrivateKeyDer => match PrivateKeyDer::try_from(saved.clone()) {
+				Ok(d) => rcgen::KeyPair::try_from(&d),
+				Err(_) => Err(rcgen::Error::CouldNotParseKeyPair),
+			},
+			Entry::TryFromPkcs8Der => rcgen::KeyPair::try_from(&PrivatePkcs8KeyDer::from(saved.clone())),
+			Entry::FromPem => rcgen::KeyPair::from_pem(&saved_pem),
+			Entry::Pkcs8DerAlgo => rcgen::KeyPair::from_pkcs8_der_and_sign_algo(&PrivatePkcs8KeyDer::from(saved.clone()), alg),
+			Entry::DerAlgo => match PrivateKeyDer::try_from(saved.clone()) {
+				Ok(d) => rcgen::KeyPair::from_der_and_sign_algo(&d, alg),
+				Err(_) => Err(rcgen::Error::CouldNotParseKeyPair),
+			},
+			Entry::Pkcs8PemAlgo => rcgen::KeyPair::from_pkcs8_pem_and_sign_algo(&saved_pem, alg),
+			Entry::PemAlgo => rcgen::KeyPair::from_pem_and_sign_algo(&saved_pem, alg),
+		})
+		.map_err(|p| format!("{p} while re-loading a saved key through {entry:?}"))?;
+		match r {
+			Ok(again) => check_identity(&again, ref_spki, ref_raw, key_alg, if entry.explicit() { Some(alg) } else { None })
+				.map_err(|e| format!("saved key re-loaded through {entry:?}: {e}"))?,
+			Err(e) => {
+				if let Some(class) = crate::findings::c11_saved_key_refused(&saved, entry, &e) {
+					info.class(class);
+					continue;
+				}
+				return Err(format!("a key saved with serialize_der / serialize_pem does not load again through {entry:?}: {e}"));
+			},
+		}
+	}
+	Ok(())
+}
+
 #[derive(Clone, Debug, Serialize, Deserialize, PartialEq, Eq, Hash)]
 pub struct MatrixCase {
 	pub alg: KeyAlg,
@@ -187,12 +228,8 @@ pub fn check_matrix(m: &MatrixCase, info: &mut CaseInfo) -> Result<(), String> {
 		Ok(k) => {
 			info.class("loaded");
 			check_identity(&k, &fx.spki, &fx.raw_public, m.alg, if m.entry.explicit() { Some(requested) } else { None })?;
-			// save and load again
-			let saved = k.serialize_der();
-			let again = rcgen::KeyPair::try_from(saved.as_slice()).map_err(|e| format!("a key rcgen serialised does not load again: {e}"))?;
-			check_identity(&again, &fx.spki, &fx.raw_public, m.alg, None)?;
-			let again = rcgen::KeyPair::from_pem(&k.serialize_pem()).map_err(|e| format!("a key rcgen serialised as PEM does not load again: {e}"))?;
-			check_identity(&again, &fx.spki, &fx.raw_public, m.alg, None)
+			// save (serialize_der / serialize_pem) and load again through every entry point
+			reload_everywhere(&k, &fx.spki, &fx.raw_public, m.alg, info)
 		},
 		Err(e) => {
 			if must_load {
@@ -291,7 +328,8 @@ pub fn check_fresh(f: &FreshCase, info: &mut CaseInfo) -> Result<(), String> {
 	}
 	let k = r.map_err(|e| format!("a generated {gname} key does not load again through {:?}: {e}", f.entry))?;
 	let key_alg = fam;
-	check_identity(&k, &spki, &raw, key_alg, if f.entry.explicit() { Some(requested) } else if fam != KeyAlg::Rsa2048 { Some(galg) } else { None })
+	check_identity(&k, &spki, &raw, key_alg, if f.entry.explicit() { Some(requested) } else if fam != KeyAlg::Rsa2048 { Some(galg) } else { None })?;
+	reload_everywhere(&k, &spki, &raw, key_alg, info)
 }
 
 fn fresh_case() -> BoxedStrategy<FreshCase> {
